@@ -586,6 +586,23 @@ pub trait SlotOps: Send + Sync {
     fn is_registered(&self, w: &World) -> bool;
 }
 
+/// When set, the generic-storage entry points of `SlotOps` go through the by-reference overloads
+/// (`impl GenericWriteStorage for &mut WriteStorage`, `impl GenericReadStorage for &ReadStorage /
+/// &WriteStorage`) instead of the by-value ones. Set and cleared by the interpreter around one op.
+pub static BYREF: std::sync::atomic::AtomicBool = std::sync::atomic::AtomicBool::new(false);
+
+fn byref() -> bool {
+    BYREF.load(std::sync::atomic::Ordering::Relaxed)
+}
+
+fn g_insert<S: GenericWriteStorage>(mut s: S, e: Entity, c: S::Component) -> specs::storage::InsertResult<S::Component> {
+    s.insert(e, c)
+}
+
+fn g_get<S: GenericReadStorage>(s: S, e: Entity, f: &mut dyn FnMut(Option<&S::Component>)) {
+    f(s.get(e))
+}
+
 pub struct Slot<C: TComp>
 where
     C::Storage: Default,
@@ -683,7 +700,11 @@ where
     ) -> (u64, Result<Option<V>, String>) {
         let (c, id) = C::make(payload);
         let mut s = w.write_storage::<C>();
-        let r = GenericWriteStorage::insert(&mut s, e, c);
+        let r = if byref() {
+            g_insert(&mut s, e, c)
+        } else {
+            GenericWriteStorage::insert(&mut s, e, c)
+        };
         (
             id,
             r.map(|o| o.map(|c| c.consume())).map_err(|e| e.to_string()),
@@ -696,12 +717,28 @@ where
     }
 
     fn get_read(&self, w: &World, e: Entity) -> Option<V> {
+        if byref() {
+            let mut out = None;
+            if e.id() % 2 == 0 {
+                let s = w.read_storage::<C>();
+                g_get(&s, e, &mut |c| out = c.map(|c| c.peek()));
+            } else {
+                let s = w.write_storage::<C>();
+                g_get(&s, e, &mut |c| out = c.map(|c| c.peek()));
+            }
+            return out;
+        }
         let s = w.read_storage::<C>();
         GenericReadStorage::get(&s, e).map(|c| c.peek())
     }
 
     fn get_mut(&self, w: &World, e: Entity, touch: bool, write: Option<i64>) -> Option<V> {
         let mut s = w.write_storage::<C>();
+        if byref() {
+            let mut r = &mut s;
+            let x = GenericWriteStorage::get_mut(&mut r, e);
+            return x.map(|mut acc| acc_step::<C, _>(&mut acc, touch, write));
+        }
         let r = s.get_mut(e);
         r.map(|mut acc| acc_step::<C, _>(&mut acc, touch, write))
     }
@@ -808,6 +845,11 @@ where
         write: Option<i64>,
     ) -> Option<V> {
         let mut s = w.write_storage::<C>();
+        if byref() {
+            let mut r = &mut s;
+            let x = GenericWriteStorage::get_mut_or_default(&mut r, e);
+            return x.map(|mut acc| acc_step::<C, _>(&mut acc, touch, write));
+        }
         let r = GenericWriteStorage::get_mut_or_default(&mut s, e);
         r.map(|mut acc| acc_step::<C, _>(&mut acc, touch, write))
     }
